@@ -279,14 +279,14 @@ def gen_histories(tier, seed, scale=1):
     for _ in range(scale):
         bases += ug.base_scenarios(rng, tier)
     stats["base scenarios (no fault)"] = len(bases)
-    base_h = [h for _, h in bases]
+    base_h = [h for _, h, _ in bases]
     res0 = run_unwind(base_h)
     variants, labels = [], []
     cap = 8 if tier == "quick" else 24
-    for (label, h), r in zip(bases, res0):
+    for (label, h, tpos), r in zip(bases, res0):
         dpo = drops_per_op(r)
         cross = label.startswith("cross/")
-        for pos, k, n, hv in ug.fault_variants(h, dpo, cap=cap, first_only=(tier == "quick" and not cross)):
+        for pos, k, n, hv in ug.fault_variants(h, dpo, cap=cap, only=(tpos if tier == "quick" and not cross else None)):
             variants.append(hv)
             where = "first" if k == 1 and n >= 1 else ("beyond" if k == n + 1 else ("last" if k == n else "middle"))
             stats["fault position: " + where] += 1
